@@ -6,8 +6,9 @@ CONTRACTS: list[Contract] = []
 
 
 def contract(qual, joined_locals=(), comps=None, match_params=None, defines=(), replay_hook=None, assumes=(), opaque_specs=(),
-             prefer_cvc5=False, **kw):
+             prefer_cvc5=False, uses=(), **kw):
     c = Contract(qual, **kw)
+    c.uses = list(uses)
     c.prefer_cvc5 = prefer_cvc5      # string-list VCs that cvc5 decides in milliseconds and z3's sequence solver in a minute
     c.opaque_specs = tuple(opaque_specs)
     c.assumes = list(assumes)
@@ -30,3 +31,37 @@ def prim(fn):
     """Vocabulary primitive: concrete implementation here, symbolic implementation registered in pyvc."""
     fn._pyvc_prim = True
     return fn
+
+
+# ---- object invariant of the matcher (C04.O3): required at entry and ensured at exit of every CSSMatch method, and part
+# of every loop invariant; functions that can reach match_default / match_lang / match_indeterminate may modify the caches
+CACHE_INV = ['default_cache_ok(self, self.cached_default_forms, 0)', 'lang_cache_ok(self, self.cached_meta_lang)',
+             'indet_cache_ok(self, self.cached_indeterminate_forms)']
+CACHE_FIELDS = ['self.cached_default_forms', 'self.cached_meta_lang', 'self.cached_indeterminate_forms']
+TOUCHES_CACHES = {'match_selectors', 'match_nth', 'match_subselectors', 'match_past_relations', 'match_future_child', 'match_future_relations',
+                  'match_relations', 'match', 'select', 'closest', 'filter', 'match_default', 'match_lang', 'match_indeterminate'}
+
+
+def apply_object_invariant():
+    for c in CONTRACTS:
+        if c.qual.startswith('lemma.'):
+            continue
+        selft = c.params.get('self')
+        if selft is None or getattr(selft, 'name', '') != 'CSSMatch':
+            continue
+        name = c.qual.split('.')[-1].split('@')[0]
+        if getattr(c, '_inv_applied', False):
+            continue
+        c._inv_applied = True
+        if name == '__init__':
+            c.ensures = list(c.ensures) + CACHE_INV
+            continue
+        if name in TOUCHES_CACHES:
+            if name != 'match_default':
+                # these functions only carry the invariant through their calls: it stays an uninterpreted predicate of the table
+                c.opaque_specs = tuple(c.opaque_specs) + ('default_cache_ok', 'lang_cache_ok', 'indet_cache_ok')
+            c.requires = list(c.requires) + CACHE_INV
+            c.ensures = list(c.ensures) + CACHE_INV
+            c.modifies = list(c.modifies) + [f for f in CACHE_FIELDS if f not in c.modifies]
+            for k, spec in c.loops.items():
+                spec['invariant'] = list(spec.get('invariant', [])) + CACHE_INV
